@@ -173,6 +173,29 @@ def property_obligations(pid: str, build_status: dict) -> dict:
     return res
 
 
+def coqchk_property(pid: str) -> dict:
+    """Independent re-check of Properties/<pid>.vo and everything it depends on (thorough tier): coqchk -o."""
+    t = Timer()
+    rc, out, err = run(["timeout", "1500", "coqchk", "-silent", "-o", "-R", ".", "PX", f"PX.Properties.{pid}"], cwd=COQ, timeout=1600)
+    text = out + "\n" + err
+    res = {"cmd": f"cd {COQ} && coqchk -silent -o -R . PX PX.Properties.{pid}", "rc": rc, "wall_s": t.s(), "problems": []}
+    m = re.search(r"\* Axioms:(.*?)\n\s*\n\* Constants/Inductives relying on type-in-type:(.*?)\n\s*\n\* Constants/Inductives relying on unsafe \(co\)fixpoints:(.*?)\n\s*\n"
+                  r"\* Inductives whose positivity is assumed:(.*?)(\n\s*\n|$)", text, re.S)
+    if rc != 0 or not m:
+        res["problems"].append("coqchk failed: " + text[-600:])
+        return res
+    fields = [x.strip() for x in m.groups()[:4]]
+    res["axioms"], res["type_in_type"], res["unsafe_fixpoints"], res["assumed_positivity"] = fields
+    names = [] if fields[0] == "<none>" else re.findall(r"^\s*(\S+)", fields[0], re.M)
+    bad = [n for n in names if n.split(".")[-1] not in ALLOWED_AXIOMS and n not in ALLOWED_AXIOMS]
+    if bad:
+        res["problems"].append(f"coqchk lists axioms that are not allowed: {bad}")
+    for label, v in zip(("type-in-type", "unsafe fixpoints", "assumed positivity"), fields[1:]):
+        if v != "<none>":
+            res["problems"].append(f"coqchk: {label}: {v[:200]}")
+    return res
+
+
 # ---------------------------------------------------------------------------------------------
 # Evaluating the model inside Coq (vm_compute) on the cases the implementation just ran.
 
